@@ -247,6 +247,107 @@ def run_tlc_replay(outdir, seed0, nbeh, nproc, deadline=1800, genspec="RainConc_
     return records, len(scheds)
 
 
+CLIENT_STEPS = ("w", "rot", "cp", "tm", "sn", "rs", "pn", "pd")
+GEN_KEYS = [[[97], [98], [99]], [[], [0], [255, 255]], [[107, 49], [107, 49, 0], [107, 50]]]
+GEN_OPTS = [dict(memtable=100000, file=2000, block=64), dict(memtable=300, file=300, block=16),
+            dict(memtable=100000, file=300, block=4096)]
+
+
+def core_history(trail, idx, seed):
+    """A behaviour of RainCore (list of [a, x, y, z] records) as a replay file of the hist driver."""
+    ops, vid, pins = [], 0, []
+    for r in trail:
+        a, x, y, z = r["a"], r["x"], r["y"], r["z"]
+        if a == "w":
+            if y == 1:
+                vid += 1
+                ops.append({"Put": {"k": x, "v": {"vid": vid, "len": 20 + (vid * 7) % 40, "comp": vid % 2 == 0}}})
+            else:
+                ops.append({"Del": {"k": x}})
+        elif a == "rot":
+            ops.append("Flush")
+        elif a in ("cp", "tm"):
+            ops.append({"Compact": {"lo": y, "hi": z}})
+        elif a == "sn":
+            ops.append("Snap")
+        elif a == "rs":
+            ops.append({"Release": {"idx": x - 1}})
+        elif a == "pn":
+            pins.append(x)
+            ops.append({"IterNew": {"snap": None}})
+        elif a == "pd":
+            if x in pins:
+                ops.append({"IterDrop": {"idx": pins.index(x)}})
+                pins.remove(x)
+    o = dict(GEN_OPTS[idx % len(GEN_OPTS)])
+    o["reuse"] = idx % 2 == 0
+    cfg = {"seed": seed, "nkeys": 3, "nops": len(ops), "opts": o, "profile": "mixed",
+           "adversarial_keys": True, "big_values": False, "max_snaps": 2, "max_iters": 2}
+    return {"driver": "hist", "cfg": cfg, "keys": GEN_KEYS[(idx // 3) % len(GEN_KEYS)], "ops": ops}
+
+
+def run_core_replay(outdir, seed0, nbeh, nproc, simulate, deadline=1800):
+    """spec -> impl for the core model: behaviours of RainCore generated by TLC
+    (spec/RainCore_Gen.tla) - exhaustively, one per distinct state of the small model, sampled
+    down to nbeh client-level histories, or random ones in simulation mode - replayed by the
+    `hist` driver with a full observation after every call."""
+    import random
+    shutil.rmtree(outdir, ignore_errors=True)
+    os.makedirs(outdir, exist_ok=True)
+    if simulate:
+        rc, out, wall = tlc(f"gencore-{seed0}", "RainCore_Gen.tla", "MC_RainCore_gensim.cfg", workers=1,
+                            timeout=900, heap="3g",
+                            extra=["-simulate", f"num={nbeh}", "-depth", "31", "-seed", str(seed0)])
+    else:
+        rc, out, wall = tlc(f"gencore-{seed0}", "RainCore_Gen.tla", "MC_RainCore_gen.cfg",
+                            workers=min(8, NCPU), timeout=900, heap="6g")
+    hists = set()
+    for line in out.splitlines():
+        m = re.match(r'<<"@@BEH", "(.*)">>$', line)
+        if m:
+            tr = json.loads(m.group(1).encode().decode("unicode_escape"))
+            hists.add(tuple((r["a"], r["x"], r["y"], r["z"]) for r in tr if r["a"] in CLIENT_STEPS))
+    hists.discard(())
+    if not hists:
+        raise ToolError("TLC generated no behaviours of RainCore_Gen:\n" + "\n".join(out.splitlines()[-20:]))
+    total = len(hists)
+    # a history that is a prefix of another one is covered by it (observation after every call)
+    ordered = sorted(hists)
+    maximal = [h for i, h in enumerate(ordered)
+               if not (i + 1 < len(ordered) and ordered[i + 1][:len(h)] == h)]
+    rnd = random.Random(seed0)
+    if len(maximal) > nbeh:
+        maximal = rnd.sample(maximal, nbeh)
+    nproc = max(1, min(nproc, len(maximal)))
+    jobs = []
+    for i in range(nproc):
+        f = f"{outdir}/histories_{i}.ndjson"
+        with open(f, "w") as fh:
+            for j, h in enumerate(maximal[i::nproc]):
+                idx = i + j * nproc
+                trail = [dict(a=a, x=x, y=y, z=z) for (a, x, y, z) in h]
+                fh.write(json.dumps(core_history(trail, idx, seed0 * 1000 + idx)) + "\n")
+        jobs.append((i, f))
+
+    def one(job):
+        i, f = job
+        sub = f"{outdir}/p{i}/part1"
+        cmd = [BIN, "hist", "--replay-list", f, "--per-file", "40", "--out", sub]
+        r = sh(cmd, timeout=deadline)
+        res_path = sub + "/results.json"
+        if not os.path.exists(res_path):
+            raise ToolError(f"driver produced no results: {' '.join(cmd)}\n{r.stdout[-2000:]}")
+        if r.returncode not in (0, 3):
+            raise ToolError(f"driver crashed rc={r.returncode}: {' '.join(cmd)}\n{r.stdout[-2000:]}")
+        return json.load(open(res_path))["runs"]
+
+    records = []
+    with cf.ThreadPoolExecutor(max_workers=nproc) as ex:
+        for rs in ex.map(one, jobs):
+            records += rs
+    return records, total, len(maximal)
+
+
 def validate_traces(files, module, cfg, nproc, tag, timeout=900):
     """Validate trace files against a trace specification. Returns (runs, rejects)."""
 
@@ -342,7 +443,10 @@ PROPS = {
               # block cache and table cache of 2..8 entries: every read evicts and re-opens /
               # re-reads (RainCache EvictTable / EvictBlock are taken by the real code)
               dict(driver="hist", args=["--nops", "70", "--per-file", "6", "--small-caches",
-                                        "--compact-bias", "1"], quick=24, thorough=600)]),
+                                        "--compact-bias", "1"], quick=24, thorough=600),
+              # spec -> impl: one behaviour per distinct state of the small core model (TLC,
+              # exhaustive), sampled; every call followed by a full observation
+              dict(driver="hist", gen="core", args=[], quick=400, thorough=20000)]),
     "C03": dict(
         design=[(CORE, [Q1], ["MC_RainCore_small.cfg", "MC_RainCore_pins.cfg"])],
         switches=[("Bug_DropAboveSnapshot", CORE, Q1, "ReadCorrect"),
@@ -358,7 +462,9 @@ PROPS = {
                    quick=24, thorough=600),
               # snapshots and iterators taken while a writer is suspended inside its commit
               dict(driver="sched", args=["--all"], quick=1, thorough=6, trace=CONC_TRACE,
-                   final_rc3=True)]),
+                   final_rc3=True),
+              # spec -> impl: random behaviours of the core model (3 keys, 2 snapshots, 8 writes)
+              dict(driver="hist", gen="core", simulate=True, args=[], quick=200, thorough=4000)]),
     "C07": dict(
         design=[(CORE, [Q1, "MC_RainCore_gap.cfg"],
                  ["MC_RainCore_small.cfg", "MC_RainCore_pins.cfg", "MC_RainCore_gap.cfg",
@@ -371,7 +477,8 @@ PROPS = {
                    quick=48, thorough=1200),
               dict(driver="hist", args=["--nops", "80", "--per-file", "6", "--profile", "local",
                                         "--nkeys", "12", "--compact-bias", "1", "--seek-bias", "1"],
-                   quick=32, thorough=800)]),
+                   quick=32, thorough=800),
+              dict(driver="hist", gen="core", args=[], quick=400, thorough=20000)]),
     "C10": dict(
         design=[(CORE, [Q1], ["MC_RainCore_small.cfg"]), REOPEN],
         switches=[("Bug_RangeMin", CORE, "MC_RainCore_range.cfg", None),
@@ -625,7 +732,12 @@ def check_prop(prop, tier, seed):
             continue
         outdir = f"{OUT}/{prop}-{tier}-{wi}"
         seed0 = PROP_SEED_BASE[prop] + wi * 500 + seed * 100000
-        if w.get("gen") == "tlc":
+        if w.get("gen") == "core":
+            r, ntotal, nrun = run_core_replay(outdir, seed0, runs, nproc, w.get("simulate", False),
+                                              deadline=1800 if tier == "quick" else 14400)
+            extra["core_behaviours_generated_by_tlc"] = extra.get("core_behaviours_generated_by_tlc", 0) + ntotal
+            extra["core_behaviours_replayed"] = extra.get("core_behaviours_replayed", 0) + nrun
+        elif w.get("gen") == "tlc":
             r, nsched = run_tlc_replay(outdir, seed0, runs, nproc,
                                        deadline=1800 if tier == "quick" else 14400,
                                        genspec=w.get("genspec", "RainConc_Gen"))
@@ -830,7 +942,12 @@ def adhoc(driver, runs, args, seed):
     build_harness()
     outdir = f"{OUT}/adhoc"
     nproc = min(12, NCPU)
-    recs = run_driver_parallel(driver, outdir, 424242 + seed * 1000, runs, min(nproc, runs), args)
+    if driver == "core":
+        recs, ntotal, nrun = run_core_replay(outdir, 4242 + seed, runs, nproc, "--simulate" in args)
+        log(f"TLC generated {ntotal} distinct client-level histories, {nrun} replayed")
+        driver = "hist"
+    else:
+        recs = run_driver_parallel(driver, outdir, 424242 + seed * 1000, runs, min(nproc, runs), args)
     files = sorted(glob.glob(f"{outdir}/p*/part*/trace_*.ndjson"))
     tmod, tcfg = TRACE_SPEC_OF[driver]
     vruns, rejects, tstates = validate_traces(files, tmod, tcfg, nproc, "adhoc")
